@@ -42,10 +42,7 @@ class Duty(ugn.UGen):
                 return (
                     f"reset input is not '{self.rate}' rate: "
                     f"{self.inputs[1]} is '{reset_rate}' rate")
-            else:
-                return None
-        else:
-            return self._check_valid_inputs()
+        return self._check_valid_inputs()
 
 
 class TDuty(Duty):
